@@ -237,3 +237,6 @@ known.register('C13-wind-memmap-1cell', lambda spec, f: (
      f.clause in ('dims-differ', 'values-differ'))))
 known.register('C13-read-wind-recsize', lambda spec, f: (
     _wind_hdr_collision(spec) and _read_side(f, 'wind')))
+known.register('C13-read-met-multiday-step', lambda spec, f: (
+    spec['fmt'] in MET and spec.get('step_h', 1) > 24 and
+    _read_side(f, spec['fmt'])))
